@@ -160,6 +160,17 @@ theorem C04_cleanup_angle_witness :
     regexClean ['<', '<', '<', '<', 'a', '>', '>', '>', '>'] = ['{', 'a', '}'] := by
   constructor <;> decide
 
+/-- the three forms of a repetition quantifier are left alone (`{3,}` only since fix 228674f "open-ended repetition
+quantifier": before, `a{3,}` was compiled as the literal text `a\{3,\}`), while braces that are not a
+quantifier are escaped -/
+theorem C04_cleanup_quantifier_witness :
+    regexClean ['a', '{', '3', '}'] = ['a', '{', '3', '}'] ∧
+    regexClean ['a', '{', '3', ',', '6', '}'] = ['a', '{', '3', ',', '6', '}'] ∧
+    regexClean ['a', '{', '3', ',', '}'] = ['a', '{', '3', ',', '}'] ∧
+    regexClean ['a', '{', ',', '3', '}'] = ['a', '\\', '{', ',', '3', '\\', '}'] ∧
+    regexClean ['a', '{', 'b', '}'] = ['a', '\\', '{', 'b', '\\', '}'] := by
+  refine ⟨?_, ?_, ?_, ?_, ?_⟩ <;> decide
+
 /-! ## Non-vacuity -/
 
 example : IsLine ['a', 'b', '\n'] := by decide
